@@ -81,24 +81,19 @@ Proof.
     rewrite (split_item x [] _ Hx), IH by (discriminate || exact Hr). reflexivity.
 Qed.
 
-(* process_expanding reproduces the literal_binds rendering when no rendered literal contains ", " *)
-Theorem process_expanding_guarded : forall l r lits,
-  lits <> [] -> forallb no_sep lits = true ->
-  process_expanding_be l r lits = render_in_list_be l r lits.
+(* bound expanding parameters: the text split is harmless because placeholders contain no ", " *)
+Theorem process_expanding_bound_ok : forall l r phs,
+  phs <> [] -> forallb no_sep phs = true ->
+  process_expanding_bound l r phs = render_in_list_be l r phs.
 Proof.
-  intros l r lits Hne H. unfold process_expanding_be, render_in_list_be, render_in_list.
-  rewrite (split_join lits Hne H). reflexivity.
+  intros l r phs Hne H. unfold process_expanding_bound, render_in_list_be.
+  rewrite (split_join phs Hne H). reflexivity.
 Qed.
 
-(* ... and otherwise splits inside the string literal: one value 'A, B' *)
+(* literal_execute parameters: the rendered literals are wrapped one by one, whatever they contain *)
+Theorem process_expanding_literal : forall l r lits,
+  process_expanding_be l r lits = render_in_list_be l r lits.
+Proof. reflexivity. Qed.
+
 Definition s_lower_open : str := [108; 111; 119; 101; 114; 40].
 Definition lit_A_B : str := [39; 65; 44; 32; 66; 39].
-Theorem process_expanding_refuted : exists l r lits,
-  lits <> [] /\ process_expanding_be l r lits <> render_in_list_be l r lits /\
-  (* the value the database now compares with *)
-  lex_str (mkLex EscNone false) (skipn (length l) (process_expanding_be l r lits))
-  = Some ([65; 41; 44; 32; 108; 111; 119; 101; 114; 40; 66], r).
-Proof.
-  exists s_lower_open, [41], [lit_A_B]. split; [discriminate|]. split; [vm_compute; discriminate|].
-  vm_compute. reflexivity.
-Qed.
